@@ -1,8 +1,11 @@
 P = dict(
     bin="egv_c02", trace="Trace_C02", level="model_checking",
-    mc=[],
+    mc=[dict(module="MC_C02", quick_cfg="MC_C02.cfg", workers=8, coverage=False),
+        dict(module="MC_C02", quick_cfg="MC_C02_control.cfg", expect_violation=True, coverage=False, workers=8)],
     required_events=["draw"],
-    level_text="TLC checks for every recorded drawable that all points written on an unbounded target lie inside "
+    level_text="MC_C02 steps the transcribed Text::draw / draw_string machine (shared with MC_C15) over abstract fonts whose "
+               "decorations lie below and inside the cell and checks after every step that the painted set is inside the "
+               "transcribed bounding_box() (control: the snapshot's measure_string, D10, is refuted); TLC checks for every recorded drawable that all points written on an unbounded target lie inside "
                "bounding_box() and that transparent styles write nothing: the styled-primitive / image catalogue, wide strokes "
                "on lines, triangles and polylines, and text in EVERY built-in font x strings x baselines x alignments x "
                "colour/decoration combinations x line heights",
